@@ -58,6 +58,12 @@ claim("C13", "e1_pull",
   "Trusted: reference join on (multi)sets; HalfJoinState spy wrapper only forwards. Emission order unspecified, multisets compared. keys 0..2, values 0..3, <=8 arrivals per side per tick.",
   "DESIGN.md §5 C13, §13")
 
+claim("C27", "e2_wakesim",
+  "deterministic simulation of thread interleavings: shuttle RandomScheduler + PCT(depth 3) seeded from VERIF_SEED run the real WakeState / Dfir::{run, run_available, run_tick} against waker/sender threads, switching only at the hydro_verif_hooks yield points between the atomic steps; lost wake-up = deadlock or un-ticked wake; thorough tier adds a seeded Miri leg (weak-memory emulation)",
+  "Seeded exploration (random + PCT sampling) of runner/waker interleavings at every atomic step of the wake-up protocol, incl. an end-to-end dfir_syntax! source_stream program fed from other threads; failing schedules are persisted in shuttle's schedule format and replayed in a fresh process.",
+  "Trusted: shuttle's scheduler, the stub tick closure and oracles. Sequentially consistent interleavings at the yield points only (Miri leg in thorough tier samples weak-memory behaviours); <=2 wakers/senders, <=2 wakes or 3 items each; AtomicWaker/tokio mpsc treated as atomic between yield points; run_available_sync/run_tick_sync covered only through the shared run_tick.",
+  "DESIGN.md §5 C27, §13")
+
 NOT_BUILT = {}  # pid -> reason while its check is not built yet
 
 ALL = ["C%02d" % i for i in range(1, 43)]
@@ -96,6 +102,7 @@ def main():
         engines.setdefault(c["engine"], []).append(pid)
     ENG_KIND = {
       "e1_pull": "poll-level deterministic simulator for dfir_pipes pull combinators and the symmetric hash join",
+      "e2_wakesim": "thread-interleaving simulator (shuttle) for the dataflow runner's wake-up protocol, with guarded yield hooks in dfir_rs",
       "e1_sink": "poll-level deterministic simulator for sinktools adaptors and MergeSource",
       "e1_push": "poll-level deterministic simulator for dfir_pipes push combinators",
       "e1_pollsim": "poll-level deterministic simulator: scripted Pending/Ready/wake schedules around real dfir_pipes/sinktools/MergeSource/unsync-mpsc code",
@@ -107,7 +114,7 @@ def main():
         "guard": "cargo feature hydro_verif_hooks on dfir_rs (off by default)",
         "enable": "checks that need the hooks depend on /repo/dfir_rs by path with features=[\"hydro_verif_hooks\"] (only e2_wakesim)",
         "baseline_off_cmd": "cd /repo && (cargo nextest run --workspace --no-fail-fast --test-threads 8 --offline || cargo test --workspace --no-fail-fast --offline)",
-        "source_commits": [],
+        "source_commits": ["ccc60c9ebe8"],
         "add_only": True,
       },
       "engines": [{"name": k, "path": f"/verif/{k}", "serves_properties": sorted(v), "kind_free_text": ENG_KIND.get(k, "")} for k, v in sorted(engines.items())],
